@@ -18,6 +18,7 @@ import (
 	"github.com/iotaledger/iota.go/trinary"
 	pow1 "github.com/wollac/iota-crypto-demo/pkg/pow"
 	pow2 "github.com/wollac/iota-crypto-demo/pkg/pow/v2"
+	"golang.org/x/crypto/blake2b"
 
 	"verif/sim/kernel"
 	"verif/sim/proto"
@@ -38,6 +39,10 @@ type mineRet struct {
 	err   error
 	panic string
 }
+
+// wrongInputNonce marks a lane whose input is not digest || nonce || 000 for the data of the call: the oracle gives it the
+// all-zero hash (see SimInput). The value is never reached by a worker's own range in a run.
+const wrongInputNonce = 0x5EED0BADF00D0001
 
 type inputRec struct {
 	base     uint64
@@ -82,15 +87,29 @@ func init() {
 		if curStub.Load() == nil || len(buf) != 64 {
 			return
 		}
+		st := curStub.Load()
 		rec := inputRec{base: nonce}
 		for i := 0; i < 64; i++ {
-			if len(buf[i]) < 240 {
+			if len(buf[i]) < ref.HashLen {
 				return
 			}
 			n, ok := decodeLaneNonce(buf[i][192:240], nonce+uint64(i))
 			rec.lanes[i] = n
 			if !ok || n != nonce+uint64(i) {
 				rec.mismatch = true
+			}
+			// the rest of the input: the b1t6 digest of the data and three zero trits. A lane that hashes anything else
+			// hashes another message than the one Score will judge; its hash is unrelated to the true one, and the
+			// oracle makes that visible by letting exactly such a lane qualify (the all-zero hash).
+			if st != nil && st.digest != nil {
+				bad := buf[i][240] != 0 || buf[i][241] != 0 || buf[i][242] != 0
+				for t := 0; t < 192 && !bad; t++ {
+					bad = buf[i][t] != st.digest[t]
+				}
+				if bad {
+					rec.lanes[i] = wrongInputNonce
+					rec.mismatch = true
+				}
 			}
 		}
 		kernel.Hidden(func() {
@@ -139,6 +158,21 @@ var (
 	workers1 = map[int]*pow1.Worker{}
 	workers2 = map[int]*pow2.Worker{}
 )
+
+// dataBufs: the message of a run is written IN PLACE into a buffer that the child keeps per message length, the way an
+// application refills one transaction buffer: a change that remembers the caller's slice between calls (instead of
+// its contents) then sees the same slice with new contents in a later call.
+var dataBufs = map[int][]byte{}
+
+func persistentData(d []byte) []byte {
+	b, ok := dataBufs[len(d)]
+	if !ok {
+		b = make([]byte, len(d))
+		dataBufs[len(d)] = b
+	}
+	copy(b, d)
+	return b
+}
 
 func worker1(n int) *pow1.Worker {
 	if w, ok := workers1[n]; ok {
@@ -281,6 +315,9 @@ func (w *world) simulate(choices []int) {
 	var st *stub
 	if cfg.Hash == "stub" {
 		st = newStub(cfg.Stub, cfg.craftCtx())
+		st.special[wrongInputNonce] = make([]int8, ref.HashLen)
+		d := blake2b.Sum256(cfg.data())
+		st.digest = ref.B1T6(d[:])
 	}
 	curStub.Store(st)
 
@@ -325,7 +362,7 @@ func (w *world) simulate(choices []int) {
 	defer k.Unbind()
 
 	resCh := make(chan mineRet, 1)
-	data := cfg.data()
+	data := persistentData(cfg.data())
 	// caller actor
 	go func() {
 		defer func() {
@@ -575,6 +612,18 @@ func (w *world) simulate(choices []int) {
 			w.delivered("cancel")
 		default:
 			k.Wake(e.Who)
+		}
+	}
+	if w.returned && w.res.Class == "" && w.res.Diverged == "" {
+		// Mine has returned and everything it started is gone: let ten simulated minutes pass, in case something was
+		// left on a timer (a time.AfterFunc that fires into closed channels kills the process; one that starts
+		// goroutines shows up in the census)
+		before := time.Now()
+		kernel.HiddenSleep(10 * time.Minute)
+		w.simNs += int64(time.Since(before))
+		k.Quiesce()
+		if late := w.leaked(base, false); len(late) > 0 {
+			w.violate("leak:started-by-a-timer-after-return", fmt.Sprintf("%d goroutine(s) appeared after Mine had returned, when simulated time advanced:\n--- %s", len(late), trimStack(late[0])), nil)
 		}
 	}
 	for _, c := range cancels {
